@@ -34,6 +34,36 @@ fn main() {
 			};
 			std::process::exit(engine::run_property(def, tier, seed, only));
 		}
+		"transcript" => {
+			// transcript <seed> <chunk> <count> <max_len>
+			let a: Vec<u64> = args[2..].iter().filter_map(|x| x.parse().ok()).collect();
+			if a.len() < 4 {
+				usage();
+			}
+			yverif::transcript::print_transcript(a[0], a[1], a[2] as usize, a[3] as usize);
+		}
+		"trace-one" => {
+			let text = std::fs::read_to_string(&args[2]).unwrap_or_default();
+			match serde_json::from_str::<yverif::transcript::Program>(&text) {
+				Ok(p) => println!("{}", p.trace().line()),
+				Err(e) => {
+					eprintln!("cannot decode program: {e}");
+					std::process::exit(2)
+				}
+			}
+		}
+		"fuzz-replay" => {
+			// fuzz-replay <target> <file>...
+			let mut bad = 0;
+			for f in &args[3..] {
+				let data = std::fs::read(f).unwrap_or_default();
+				if let Err(fl) = yverif::fuzz_entry::run_target(&args[2], &data) {
+					println!("FAIL {} [{}] {}", f, fl.sig, fl.msg);
+					bad += 1;
+				}
+			}
+			std::process::exit(if bad > 0 { 1 } else { 0 });
+		}
 		"replay" => {
 			if args.len() < 4 {
 				usage();
